@@ -44,6 +44,14 @@ def all_harnesses():
                             core=core, timeout=1500)
                 h.priority = (ln == 23)  # the only quick-tier length whose frame can hold an FCS (CRC compare / emit path)
                 hs.append(h)
+    # constructor defaults (no set_checksum call): checksum checking is on by default
+    for ln in (7, 15, 23):
+        for mn in (0, 1, 2):
+            h = Harness(f"c13_step_final_default_l{ln}_min{mn}", f"crate::c13::step_equiv2(2, {ln}, {mn}, 8, true, false)", unwind=max(14, ln + 3),
+                        unit="update_state(FinalCheck), default configuration", shape={"mode": "final", "len": ln, "min_size": mn, "checksum": "default(on)"},
+                        core=(ln in (7, 15)), timeout=1500)
+            h.priority = ln in (7, 15) and mn in (0, 1)
+            hs.append(h)
     return hs
 
 
